@@ -130,9 +130,9 @@ func (g *Gen) assemble(bs []*block, inItemTight bool) []mline {
 			if canAbut(prev, b) && g.chance(1, 2) {
 				g.St.add("adjacent:" + kindNames[prev.k] + "->" + kindNames[b.k])
 			} else {
-				out = append(out, mline{s: ""})
+				out = append(out, g.blankLine())
 				if g.chance(1, 5) {
-					out = append(out, mline{s: ""})
+					out = append(out, g.blankLine())
 				}
 			}
 		}
@@ -140,6 +140,19 @@ func (g *Gen) assemble(bs []*block, inItemTight bool) []mline {
 		prev = b
 	}
 	return out
+}
+
+// blankLine is a separator line: empty, or (sometimes) made of spaces and tabs only.
+func (g *Gen) blankLine() mline {
+	if g.chance(1, 6) {
+		g.St.add("blank-line:whitespace-only")
+		ws := []string{" ", "  ", "   ", "    ", "      ", "\t", " \t", "  \t "}
+		if g.NoTabs {
+			ws = ws[:5]
+		}
+		return mline{s: ws[g.pick(len(ws))], blank: true}
+	}
+	return mline{s: ""}
 }
 
 func (g *Gen) indent(noIndent bool) string {
